@@ -53,6 +53,14 @@ func NewClient(addr string, ctype ClientType, queueSize int, flushInterval time.
 
 func (c *client) Dial(ctx context.Context) error {
 	c.dialOnce.Do(func() {
+		select {
+		case <-c.done:
+			// Already closed (or failed): don't open a connection that
+			// nobody would ever close.
+			return
+		default:
+		}
+
 		conn, err := c.dialer(ctx, "tcp", c.addr)
 		if err != nil {
 			c.fail(fmt.Errorf("failed to dial RegionServer: %s", err))
@@ -62,6 +70,15 @@ func (c *client) Dial(ctx context.Context) error {
 		c.connM.Lock()
 		c.conn = conn
 		c.connM.Unlock()
+
+		select {
+		case <-c.done:
+			// Closed while we were dialing: fail() has not seen this
+			// connection, so close it here.
+			conn.Close()
+			return
+		default:
+		}
 
 		// time out send hello if it take long
 		if deadline, ok := ctx.Deadline(); ok {
